@@ -66,6 +66,8 @@ class URI(object):
             self._parseLocation(location, None)
         elif self.protocol == "PYROMETA":
             self.object = set(m.strip() for m in self.object.split(","))
+            if not any(self.object) or any("@" in m for m in self.object):
+                raise errors.PyroError("invalid uri (metadata)")
             self._parseLocation(location, config.NS_PORT)
         else:
             raise errors.PyroError("invalid uri (protocol)")
@@ -87,6 +89,8 @@ class URI(object):
                 self.host, _, self.port = ipv6locationmatch.groups()
             else:
                 self.host, _, self.port = location.partition(":")
+                if not self.host or self.host == "./u":
+                    raise errors.PyroError("invalid uri (location)")
             if not self.port:
                 self.port = defaultPort
             try:
